@@ -80,17 +80,20 @@ ExtractOrder(s) ==
 
 (* ---------------- contexts ------------------------------------------------------------------- *)
 CtxType(c) == P.ctxs[c].type
-SvIndex(c) == IF CtxType(c) = "override" THEN P.ctxs[c].var ELSE P.nvars + P.ctxs[c].var   \* scoped values, then attributes
+SvIndex(c) == IF CtxType(c) \in {"override", "oapi"} THEN P.ctxs[c].var ELSE P.nvars + P.ctxs[c].var   \* scoped values, then attributes
+\* "oapi": the context object handed out by the public AsyncScopedValue.override(v) - the harness cannot subclass it, so its
+\* resume() / pause() are not observed (no Resume / Pause events); its effect on the value is the same
+Silent(c) == CtxType(c) = "oapi"
 
 CtxResume(M, c) ==      \* AsyncContext.resume() of a well-behaved context
-  LET M1 == Ev(M, [e |-> "Resume", a |-> c]) IN
-  IF CtxType(c) \in {"override", "attr"}
+  LET M1 == IF Silent(c) THEN M ELSE Ev(M, [e |-> "Resume", a |-> c]) IN
+  IF CtxType(c) \in {"override", "attr", "oapi"}
   THEN [M1 EXCEPT !.saved = Upd(@, c, M.sv[SvIndex(c)]), !.sv[SvIndex(c)] = P.ctxs[c].val]
   ELSE IF CtxType(c) = "timer" THEN [M1 EXCEPT !.tm[c].last = M.clk]        \* AsyncTimer.resume
   ELSE M1
 CtxPause(M, c) ==
-  LET M1 == Ev(M, [e |-> "Pause", a |-> c]) IN
-  IF CtxType(c) \in {"override", "attr"} THEN [M1 EXCEPT !.sv[SvIndex(c)] = M.saved[c]]
+  LET M1 == IF Silent(c) THEN M ELSE Ev(M, [e |-> "Pause", a |-> c]) IN
+  IF CtxType(c) \in {"override", "attr", "oapi"} THEN [M1 EXCEPT !.sv[SvIndex(c)] = M.saved[c]]
   ELSE IF CtxType(c) = "timer" THEN [M1 EXCEPT !.tm[c].tot = @ + (M.clk - M.tm[c].last)]     \* AsyncTimer.pause
   ELSE M1
 \* the with-block of c has been left (__exit__ returned): an AsyncTimer's total_time is final now
